@@ -83,10 +83,44 @@ def analyse_op(ctx, F, rid, m, body, words, cells, idx_is_param=None, opname="")
         ctx.bad(rid, key + "one-take", "%s: expected one take from a queue word, found %d" % (opname, len(takes)), m.span); return None
     tbb, tt, take_fn, take_word = takes[0]
     # the index derives from the take
+    def uncast(e):
+        e = deep_strip(e)
+        while e[0] == "cast":
+            e = deep_strip(e[1])
+        return e
+
+    def taken_value(e):
+        """is e the payload of the successful take: (take as Some).0, or (Try::branch(take) as Continue).0 ?"""
+        e = uncast(e)
+        if e[0] != "field":
+            return False
+        b = uncast(e[1])
+        if b[0] != "downcast":
+            return False
+        c = uncast(b[1])
+        if c[0] != "call":
+            return False
+        if c[1] == tbb and b[2] == "Some":
+            return True
+        if (c[3] or "").endswith("Try::branch") and b[2] == "Continue":
+            return all(uncast(a)[0] == "call" and uncast(a)[1] == tbb for a in flow(m).term_arg(c[1], 0))
+        return False
+
+    def success_fact(facts):
+        for (ce, inf, sb) in facts:
+            if ce[0] != "discr":
+                continue
+            c = uncast(ce[1])
+            if c[0] == "call" and c[1] == tbb and inf == ("eq", 1):
+                return True
+            if c[0] == "call" and (c[3] or "").endswith("Try::branch") and inf == ("eq", 0) and \
+                    all(uncast(a)[0] == "call" and uncast(a)[1] == tbb for a in flow(m).term_arg(c[1], 0)):
+                return True
+        return False
     if body is m:
         d = deps(body, [idx])
         from_take = ("call", tbb) in d
-        on_some = any(ce[0] == "discr" and mentions(ce, lambda x: x[0] == "call" and x[1] == tbb) and inf == ("eq", 1) for (ce, inf, sb) in facts_at(body, abb))
+        on_some = success_fact(facts_at(body, abb))
     else:
         d = deps(body, [idx])
         # closure called by Option::map(take_result, closure): its 2nd parameter is the Some payload
@@ -102,18 +136,13 @@ def analyse_op(ctx, F, rid, m, body, words, cells, idx_is_param=None, opname="")
     ctx.check(from_take and on_some, rid, key + "index-from-successful-take", "%s: the cell index derives from a successful take from `%s`" % (opname, take_word), at["sp"],
               {"index": show(idx), "derives_from_take": from_take, "on_success_branch": on_some})
     # after the access every path to return gives the same index to the other word
-    def uncast(e):
-        e = deep_strip(e)
-        while e[0] == "cast":
-            e = deep_strip(e[1])
-        return e
     if body is m:
-        is_v = lambda e: uncast(e)[0] == "field" and uncast(uncast(e)[1])[0] == "downcast" and uncast(uncast(uncast(e)[1])[1])[0] == "call" \
-            and uncast(uncast(uncast(e)[1])[1])[1] == tbb
+        is_v = taken_value
     else:
         is_v = lambda e: uncast(e) == ("param", 2)
     # the cell index is a function of that value and constants only
-    atoms = {x for x in deps(body, [idx], follow=lambda dd: False) if x[0] in ("call", "param")}
+    atoms = {x for x in deps(body, [idx], follow=lambda dd: dd.endswith("Try::branch")) if x[0] in ("call", "param")}
+    atoms = {x for x in atoms if not (x[0] == "call" and (body.term(x[1]).get("def") or "").endswith("Try::branch"))}
     only_v = atoms <= ({("call", tbb)} if body is m else {("param", 2)})
     ctx.check(only_v, rid, key + "cell-index-only-from-take", "%s: the cell index depends on the taken index and constants only" % opname, at["sp"], sorted(map(str, atoms)))
     gives = [(bb, t, c, w) for (bb, t, c, w) in word_calls(F, body, words) if len(t["args"]) == 2]
@@ -129,8 +158,60 @@ def analyse_op(ctx, F, rid, m, body, words, cells, idx_is_param=None, opname="")
               {"give_calls": [g[1]["sp"] for g in good], "leaking_path": leaks})
     ctx.check(other and take_word not in other and len(other) == 1, rid, key + "to-the-other-queue", "%s: taken from `%s`, given to `%s`" % (opname, take_word, sorted(other)), at["sp"],
               {"taken_from": take_word, "given_to": sorted(other)})
+    # nothing derived from the cell pointer is used once the index has been handed back (the cell may already belong to someone else)
+    cell_locals = set()
+    fl = flow(body)
+    changed = True
+    dest = body.term(abb).get("dest")
+    if dest and not dest["p"]:
+        cell_locals.add(dest["l"])
+    while changed:
+        changed = False
+        for bl in body.blocks:
+            for st in bl["s"]:
+                if st["k"] == "assign" and not st["l"]["p"] and st["l"]["l"] not in cell_locals and _uses(st["r"], cell_locals):
+                    cell_locals.add(st["l"]["l"]); changed = True
+            t = bl["t"]
+            if t["k"] == "call" and t.get("dest") and not t["dest"]["p"] and t["dest"]["l"] not in cell_locals \
+                    and any(_op_uses(a, cell_locals) for a in t["args"]) and ("&" in body.local_ty(t["dest"]["l"]) or "*" in body.local_ty(t["dest"]["l"])):
+                cell_locals.add(t["dest"]["l"]); changed = True
+    late = []
+    for (gbb, gt, gc, gw) in good:
+        for b in cfg.reachable_after(body, gbb, unwind=False, labels=["ret"]):
+            bl = body.blocks[b]
+            for st in bl["s"]:
+                if st["k"] == "assign" and (_uses(st["r"], cell_locals) or any(p["k"] == "deref" for p in st["l"]["p"]) and st["l"]["l"] in cell_locals):
+                    late.append(st["sp"])
+            t = bl["t"]
+            if t["k"] == "call" and any(_op_uses(a, cell_locals) for a in t["args"]):
+                late.append(t["sp"])
+            if t["k"] == "drop" and t["p"]["l"] in cell_locals and any(p["k"] == "deref" for p in t["p"]["p"]):
+                late.append(t["sp"])
+    ctx.check(not late, rid, key + "no-cell-use-after-give", "%s: the cell is not touched after its index was handed back" % opname, at["sp"],
+              {"uses_after_give": sorted(set(late))[:4], "why": "once the index is on a queue another send/recv may own the cell"})
     give_fns = {g[2].id for g in good}
     return take_fn, take_word, give_fns, sorted(other)[0] if other else None, abb
+
+
+def _op_uses(o, locs):
+    return o.get("k") in ("copy", "move") and o["p"]["l"] in locs
+
+
+def _uses(rv, locs):
+    k = rv["k"]
+    if k == "use":
+        return _op_uses(rv["o"], locs)
+    if k in ("ref", "rawptr", "discr"):
+        return rv["p"]["l"] in locs
+    if k == "cast":
+        return _op_uses(rv["o"], locs)
+    if k == "binop":
+        return _op_uses(rv["a"], locs) or _op_uses(rv["b"], locs)
+    if k == "unop":
+        return _op_uses(rv["a"], locs)
+    if k == "aggregate":
+        return any(_op_uses(o, locs) for o in rv["ops"])
+    return False
 
 
 def rule_a(ctx):
